@@ -233,9 +233,13 @@ ACTIONS = {"SetItem": "setitem", "SetAll": "set_all", "Add": "add", "Insert": "i
            "Pop": "pop", "PopDefault": "pop_default", "SetDefault": "setdefault", "Clear": "clear", "PopItem": "popitem"}
 
 A0, A1, A2, B0, B1, C0 = ("a", 0), ("a", 1), ("a", 2), ("b", 0), ("b", 1), ("c", 0)
-PROBE_KEYS = (A0, A1, B0, C0)
-INITS_QUICK = ((), ((A0, 1),), ((A1, 1), (B0, 2), (A0, 2)), ((B1, 1), (A0, 2), (A1, 1), (B0, 2)))
-INITS_THOROUGH = INITS_QUICK + (((A0, 1), (A1, 2)), ((C0, 1), (A2, 2), (B0, 1), (A0, 1), (C0, 2)))
+PROBE_KEYS = (A0, B1, C0)
+RICH = ((B1, 1), (A0, 2), (A1, 1), (B0, 2))          # interleaved names, mixed spellings
+INITS = ((), ((A0, 1),), ((A1, 1), (B0, 2), (A0, 2)), RICH, ((A0, 1), (A1, 2)), ((C0, 1), (A2, 2), (B0, 1), (A0, 1), (C0, 2)))
+
+
+def _inits(depths):
+    return frozenset((INITS[i], d) for i, d in enumerate(depths) if d > 0)
 
 
 class Check(core.PropertyCheck):
@@ -264,18 +268,21 @@ class Check(core.PropertyCheck):
 
     def model_constants(self, tier):
         base = {"KeyNames": frozenset({A0, A1, B0}), "Values": frozenset({1, 2}),
-                "ValLists": frozenset({(), (2,), (2, 1), (1, 2, 1)}), "InsIdx": frozenset({0, 1, 5}),
-                "Inits": frozenset(INITS_QUICK), "ProbeKeys": PROBE_KEYS, "MaxOps": 2}
+                "ValLists": frozenset({(), (2, 1), (1, 2, 1)}), "InsIdx": frozenset({0, 5}),
+                "Inits": _inits((1, 1, 1, 2, 0, 0)), "ProbeKeys": PROBE_KEYS}
         if tier != "quick":
-            base.update({"MaxOps": 3, "Inits": frozenset(INITS_QUICK[1:3])})
+            base["Inits"] = _inits((1, 1, 2, 2, 1, 2))
         return base
 
     def model_runs(self, ctx):
         if ctx.quick:
             return [ctx.model_check(self.MODEL, self.model_constants("quick"), dump=True)]
-        small = ctx.model_check(self.MODEL, dict(self.model_constants("quick"), Inits=frozenset(INITS_THOROUGH)), dump=True)
-        big = ctx.model_check(self.MODEL, self.model_constants("thorough"), dump=False, tag="_big", timeout=2400)
-        big.exhaustive = True
+        thorough = dict(self.model_constants("thorough"), ValLists=frozenset({(), (2,), (2, 1), (1, 2, 1)}),
+                        InsIdx=frozenset({0, 1, 5}))
+        small = ctx.model_check(self.MODEL, thorough, dump=True)
+        # exhaustive statistics for all histories of three operations from the rich list (no dump, not replayed)
+        big = ctx.model_check(self.MODEL, dict(self.model_constants("quick"), Inits=_inits((0, 0, 0, 3, 0, 0))),
+                              dump=False, tag="_big", timeout=3000)
         return [small, big]
 
     @staticmethod
@@ -304,7 +311,7 @@ class Check(core.PropertyCheck):
     def scenarios(self, ctx, models):
         g = models[0].graph
         behs = g.edge_cover(ctx.rng, max_len=6, tail=2)
-        behs += g.random_walks(ctx.rng, 300 if ctx.quick else 3000, 4)
+        behs += g.random_walks(ctx.rng, 300 if ctx.quick else 2000, 4)
         seen = set()
         for b in behs:
             if len(b) < 2:
@@ -320,16 +327,15 @@ class Check(core.PropertyCheck):
                     op["cont"] = "copy"
             yield core.Scenario(data, predicted=core.predicted_events(b), source="model")
         if not ctx.quick:
-            consts = dict(self.model_constants("quick"), MaxOps=6,
-                          KeyNames=frozenset({A0, A1, A2, B0, B1, C0}), Values=frozenset({1, 2, 3}),
-                          Inits=frozenset(INITS_THOROUGH))
-            sims, _r = ctx.simulate(self.MODEL, consts, num=3000, depth=8)
+            consts = dict(self.model_constants("quick"), KeyNames=frozenset({A0, A1, A2, B0, B1, C0}),
+                          Values=frozenset({1, 2, 3}), Inits=_inits((6, 6, 6, 6, 6, 6)))
+            sims, _r = ctx.simulate(self.MODEL, consts, num=2000, depth=8)
             for b in sims:
                 if len(b) >= 3:
                     yield core.Scenario(self._scenario(b), predicted=core.predicted_events(b), source="model")
         rng = random.Random(ctx.seed + 35)
         letters = "abcde"
-        for i in range(500 if ctx.quick else 8000):
+        for i in range(500 if ctx.quick else 4000):
             nl = rng.choice((1, 2, 2, 3, 5))
             ls = letters[:nl]
             spell = (0, 1, 2, 3) if rng.random() < 0.7 else (0,)
